@@ -1,0 +1,19 @@
+//go:build verif
+
+// Verification hook for the in-call notification check (C10): the transport-level outcome of one request.
+
+package mcp
+
+import (
+	"context"
+	"encoding/json"
+)
+
+// VerifClientRawCall sends one JSON-RPC request with the client's next request id through its transport
+// (sendRequest) and returns the id and the raw outcome, without the result decoders of CallTool & co.
+func VerifClientRawCall(ctx context.Context, c *Client, method string, params interface{}) (int64, *json.RawMessage, error) {
+	id := c.requestID.Add(1)
+	req := &JSONRPCRequest{JSONRPC: JSONRPCVersion, ID: id, Request: Request{Method: method}, Params: params}
+	raw, err := c.transport.sendRequest(ctx, req)
+	return id, raw, err
+}
